@@ -30,7 +30,8 @@ THEOREMS = {
     "C20": ["Cntgs.C20.category_partition", "Cntgs.C20.ctor_dispatch", "Cntgs.C20.availability"],
     "C07": ["Cntgs.C07.allocation_recorded", "Cntgs.C07.release_exact", "Cntgs.C07.reallocation_clean", "Cntgs.C07.assignment_clean",
             "Cntgs.C07.destroy_returns_data_block", "Cntgs.C07.no_leak_counter_witness", "Cntgs.C07.no_leak_partial",
-            "Cntgs.C07.data_blocks_returned_exactly_once", "Cntgs.C07.ownership_invariant", "Cntgs.WOwn.step"],
+            "Cntgs.C07.data_blocks_returned_exactly_once", "Cntgs.C07.ownership_invariant", "Cntgs.WOwn.step",
+            "Cntgs.C07.vectors_and_elements_ownership", "Cntgs.C07.nothing_left_behind"],
     "C08": ["Cntgs.C08.copy_construction", "Cntgs.C08.copy_assignment", "Cntgs.C08.move_assignment", "Cntgs.C08.swap_propagation",
             "Cntgs.C08.move_assign_unequal_transfers"],
     "C17": ["Cntgs.C17.failed_allocation_is_clean", "Cntgs.C17.reallocate_strong", "Cntgs.C17.copy_assign_fault",
